@@ -21,7 +21,9 @@ package verifspec
 //@ extern compiler/internal/dce.Selector.AliveDecls
 //@   param s
 
+// (assumed about the embedded prelude: a handful of files of hand-written JavaScript without hint bytes)
 //@ extern compiler/prelude.PreludeFiles
+//@   ensures len(result) <= 8 && forall(k, 0, len(result), wf(result[k].Source))
 
 //@ extern internal/sourcemapx.Filter.WriteJS
 //@   param f js jsFilePath minify
@@ -44,7 +46,10 @@ package verifspec
 //@ func compiler.WriteProgramCode
 //@ property C10
 //@ property C05
+// (WriteJS may panic, see its contract; a panic aborts the build)
+//@   panics_only_if true
 //@   requires len(pkgs) > 0 && w != nil && forall(k, 0, len(pkgs), pkgs[k] != nil)
+//@   requires 0 <= w.line && w.line <= 1000000000000000000 && 0 <= w.column && w.column <= 1000000000000000000
 //@   requires forall(k, 0, len(pkgs), forall(j, 0, len(pkgs[k].Declarations), pkgs[k].Declarations[j] != nil))
 //@   ghost glsAdded = 0
 //@   ghost nw = 0
@@ -59,6 +64,8 @@ package verifspec
 //@   oncall Include: assert glsAdded == len(pkgs)
 //@   oncall Include: assert a1 == has(gls.byImplementation, a0.LinkingName)
 //@   oncall Add: assert samearr(a0, pkgs[glsAdded].GoLinknames) && len(a0) == len(pkgs[glsAdded].GoLinknames)
+//@   loop 4 assigns w.line, w.column, out(w.Writer)
+//@   loop 4 invariant 0 <= $i4 && $i4 <= 8 && 0 <= w.line && w.line <= old(w.line) + $i4 * 281474976710656 && 0 <= w.column && w.column <= old(w.column) + $i4 * 281474976710656
 //@   loop 4 invariant log == chain(chain(0, str("\"use strict\";\n(function() {\n\n")), str("var $goVersion = %q;\n")) && nw == 0
 //@   loop 5 invariant log == chain(chain(chain(0, str("\"use strict\";\n(function() {\n\n")), str("var $goVersion = %q;\n")), str("\n")) && nw == $i5 && 0 <= $i5 && $i5 <= len(pkgs)
 //@   oncall WritePkgCode: assert a0 == pkgs[nw]
